@@ -118,13 +118,18 @@ def gen_subst(rng, idx):
     return text, {"tag": tag, "kind": "subst", "size": size, "form": form, "depth": depth}
 
 
-def gen_subst_inproc(rng, idx):
+def gen_subst_inproc(rng, idx, multi_cpu=False):
     """The substitution body produces its output in-process (builtin / function / loop / group), from a variable."""
-    # above one pipe buffer an in-process producer inside $( ) deadlocks intermittently on the unchanged tree (the blocking
-    # write can occupy the thread that should drain the pipe): same open finding C11-F1, so sizes stay below the buffer
-    size = rng.choice([1, 4095, 20000, 40000, 60000])
-    tag = "i%d" % idx
+    # open finding C11-F1 as measured on the unchanged tree: above one pipe buffer an in-process producer inside $( ) deadlocks
+    # *always* when the process is confined to one CPU (the body task and the draining reader share the only worker), and
+    # *never* (0 of 540 substitutions, also under load and under the pause points) with two or more CPUs as long as the producer
+    # is the substitution's own single command (not a pipeline stage, not nested). So payloads above the buffer are generated
+    # exactly for that case; a hang there is judged in judge() (deterministic hang = violation).
     form = rng.choice(["echo", "printf", "func", "loop", "group", "echo_pipe"])
+    size = rng.choice([1, 4095, 20000, 40000, 60000])
+    if multi_cpu and form != "echo_pipe" and rng.random() < 0.6:
+        size = rng.choice([65537, 100000, 300000])
+    tag = "i%d" % idx
     body = {"echo": 'echo "$big"', "printf": 'printf "%s\\n" "$big"', "func": "f_big", "loop": 'for q in 1; do echo "$big"; done',
             "group": '{ echo "$big"; }', "echo_pipe": 'echo "$big" | cat'}[form]
     text = 'big=$(gen %d %d)\nf_big() { echo "$big"; }\nv=$(%s)\necho "@sx.%s $? ${#v}"\n' % (size, idx, body, tag)
@@ -165,7 +170,7 @@ def gen_read(rng, idx):
     return text, {"tag": tag, "kind": "read", "src": src}
 
 
-def build_script(rng, n):
+def build_script(rng, n, multi_cpu=False):
     text = PRELUDE
     metas = []
     for i in range(n):
@@ -177,7 +182,7 @@ def build_script(rng, n):
         elif r < 0.8:
             t, m = gen_subst(rng, i)
         elif r < 0.87:
-            t, m = gen_subst_inproc(rng, i)
+            t, m = gen_subst_inproc(rng, i, multi_cpu)
         elif r < 0.93:
             t, m = gen_subst_status(rng, i)
         else:
@@ -307,7 +312,18 @@ def judge(run, item):
         run.inconclusive += 1
         return
     bad = []
-    if rb["hang"]:
+    if rb["hang"] == "quiescent" and any(m.get("form", "").startswith("inproc-") and m["size"] > 65536 for m in metas):
+        # the script carries an in-process producer above one pipe buffer inside $( ): three more attempts. A hang that goes away
+        # is the intermittent form recorded as open finding C11-F1; one that stays on every attempt is a new, deterministic deadlock
+        again = [run_script("brush", text, env, cpus, 40) for _ in range(3)]
+        if any(not r["hang"] for r in again):
+            kf = next((e for e in run.findings.all_entries() if e["id"] == "C11-F1"), None)
+            if kf:
+                run.findings.report(kf)
+            run.count("intermittent_hang_large_inprocess_substitution")
+            return
+        bad.append(("deterministic-hang-large-inprocess-substitution", "4 of 4 attempts did not finish; bash took %.1f s" % rh["wall"]))
+    elif rb["hang"]:
         if rb["hang"] == "quiescent":
             bad.append(("hang", "brush did not finish in 40 s while bash took %.1f s; whole process tree asleep, CPU time not advancing" % rh["wall"]))
         else:
@@ -348,6 +364,7 @@ def judge(run, item):
         run.count("pause_points_hit", sum(1 for e in rb["events"] if e.get("kind") == "pause.point"))
         run.count("stage_spawn_events", sum(1 for e in rb["events"] if e.get("kind") == "pipeline.stage_spawned"))
         run.count("payloads_over_pipe_buffer", big)
+        run.count("large_inprocess_substitutions_completed", sum(1 for m in metas if m.get("form", "").startswith("inproc-") and m["size"] > 65536))
         run.points.update(pts)
         return
     kinds = sorted(set(b[0] for b in bad))
@@ -368,7 +385,8 @@ def run(run):
                 "schedule and CPU pinning. non-trivial = distinct (stage-kind shapes, pause schedule, payload above pipe buffer?)")
     run.assumptions = ["conservation is definitional (generator and sink are the harness's own external programs); statuses from bash 5.2.15",
                        "hang verdict requires the /proc quiescence witness and bash finishing the same script",
-                       "open finding C11-F1: in-process non-final stages are run inline (deadlock above one pipe buffer): not generated above 20 KB"]
+                       "open finding C11-F1: in-process non-final stages are run inline (deadlock above one pipe buffer): not generated above 20 KB; "
+                       "a single in-process command inside $( ) above the buffer is generated only when two or more CPUs are available (deadlocks on one CPU: same finding)"]
     from . import diffrun
     diffrun.run_canaries(run, prelude=PRELUDE, timeout=25)
     pauses = [None, "pipeline.stage_spawned=20", "pipeline.stage_spawned#1=30", "pipeline.stage_spawned#2=30", "pipeline.before_wait=30",
@@ -379,8 +397,9 @@ def run(run):
     n = int((90 if quick else 3000) * scale)
     for i in range(n):
         sub = random.Random(rng.getrandbits(64))
-        text, metas = build_script(sub, 5)
-        items.append((text, metas, pauses[i % len(pauses)], rng.choice(cpusets)))
+        cpus = rng.choice(cpusets)
+        text, metas = build_script(sub, 5, multi_cpu=(cpus is None or len(cpus) >= 2))
+        items.append((text, metas, pauses[i % len(pauses)], cpus))
     core.pmap(lambda it: judge(run, it), items, workers=8)
     run.extra["pause_points_observed"] = sorted(p for p in run.points if p)
     run.sample({"script": items[0][0], "pause": items[0][2]})
